@@ -139,16 +139,18 @@ def read_encoded(data: bytes) -> str:
 
 def read_bytes(
     body: bytes,
-    default_encoding: str
+    default_encoding: str,
+    keep_mark: bool = False
 ) -> tuple[str, str, str | None]:
 
     for bom, prefix, encoding in _xml_prefixes:
         if body.startswith(bom):
-            document = body.decode(encoding)
+            document = marked = body.decode(encoding)
             # The codecs with explicit endianness keep the mark.
             if document.startswith('\ufeff'):
                 document = document[1:]
-            return document, encoding, \
+            # (kept on request: such a codec does not write it either)
+            return marked if keep_mark else document, encoding, \
                 "text/xml" if is_xml_declaration(document) else None
 
         if prefix != encode_string('<?xml') and body.startswith(prefix):
@@ -168,7 +170,7 @@ def read_bytes(
 
     document = body.decode(encoding)
     # Marks of other encodings (GB18030, UTF-7) are not part of the text.
-    if document.startswith('\ufeff'):
+    if document.startswith('\ufeff') and not keep_mark:
         document = document[1:]
         # The mark has hidden the declaration from the test above.
         if is_xml_declaration(document):
